@@ -16,7 +16,7 @@ def parseLayer (j : Json) : R Layer := do
 
 def parseOp (j : Json) : R Op := do
   match ← getStr j "op" with
-  | "add" => pure (.add (← getStr j "name") (← getList asNat j "data") (← getNat j "cal"))
+  | "add" => pure (.add (← getStr j "name") (← getList (asPair (asList asNat) asNat) j "data") (← getNat j "cal"))
   | "remove" => pure (.remove (← getList asStr j "names"))
   | "rename" => pure (.rename (← getList (asPair asStr asStr) j "map"))
   | "get" =>
@@ -96,9 +96,231 @@ def runOne (req : Json) : R Json := do
           ("abs_eq", jBool (match p.1, p.2 with | some s, some a => decide (abs s = a) | _, _ => false))]
   pure (jObj [("steps", jList enc (pick (tm.zip ts)))])
 
+/-! ## object level -/
+
+def jErr : Err → Json
+  | .assertion => jStr "AssertionError"
+  | .value => jStr "ValueError"
+  | .key => jStr "KeyError"
+  | .index => jStr "IndexError"
+
+/-- what the caller holds: its arrays (their cells, column by column), its Calibration objects, dicts and configs -/
+structure Caller where
+  arrs : List (List Nat) := []
+  cals : List Nat := []
+  dicts : List Nat := []
+  cfgs : List Nat := []
+
+structure Sim where
+  w : World
+  c : Caller
+  errs : List (Option Err) := []
+  /-- the content-level operation of every step (`absOp` with the memory at the time of the call) -/
+  cops : List Op := []
+  /-- per step: the object-level call, seen through `view`, is the content-level call (`hstep_view`) -/
+  sim : List Bool := []
+  /-- per step: the content-level state is the same before and after -/
+  unchanged : List Bool := []
+
+def nth (l : List Nat) (i : Nat) : R Nat :=
+  match l[i]? with
+  | some x => pure x
+  | none => throw s!"caller object index {i} out of range"
+
+/-- one step of a case: the caller creates whatever it passes, then calls -/
+def simStep (s : Sim) (j : Json) : R Sim := do
+  let w := s.w
+  let fin := fun (w1 : World) (op : HOp) (c : Caller) =>
+    let r := hstep w1 op
+    ({ w := r.state, c := c, errs := s.errs ++ [r.err], cops := s.cops ++ [absOp w1.heap op],
+       sim := s.sim ++ [decide (r.map view = stepE (view w1) (absOp w1.heap op))],
+       unchanged := s.unchanged ++ [decide (view r.state = view w)] } : Sim)
+  match ← getStr j "op" with
+  | "add" =>
+    let name ← getStr j "name"
+    let datas ← getList (asPair (asList asNat) asNat) j "data"
+    -- the caller's new arrays (one column each)
+    let (xs, h, arrs) := datas.foldl (fun (acc : List ArrIn × Heap × List (List Nat)) d =>
+      let r := acc.2.1.allocCells [d.2]
+      (acc.1 ++ [(d.1, r.1.headD 0)], r.2, acc.2.2 ++ [r.1])) ([], w.heap, [])
+    let calJ ← fld j "cal"
+    let (cal, h, cals) ← match calJ with
+      | .null => pure (none, h, ([] : List Nat))
+      | _ =>
+        match fldOpt calJ "obj" with
+        | some o => do let k ← nth s.c.cals (← asNat o); pure (some k, h, [])
+        | none => do
+          let r := h.allocCal (← getNat calJ "new")
+          pure (some r.1, r.2, [r.1])
+    let w1 : World := { w with heap := h }
+    pure (fin w1 (.add name xs cal) { s.c with arrs := s.c.arrs ++ arrs, cals := s.c.cals ++ cals })
+  | "remove" => pure (fin w (.remove (← getList asStr j "names")) s.c)
+  | "rename" => pure (fin w (.rename (← getList (asPair asStr asStr) j "map")) s.c)
+  | "get" =>
+    pure (fin w (.get (← getNat j "layer") (← fld j "target" >>= asOpt asStr) (← getBool j "calibrate")) s.c)
+  | "edit_cal" => pure (fin w (.setCal (← nth s.c.cals (← getNat j "obj")) (← getNat j "content")) s.c)
+  | "edit_cfg" => pure (fin w (.setCfg (← nth s.c.cfgs (← getNat j "obj")) (← getNat j "content")) s.c)
+  | "set_offsets" => pure (fin w (.setOffsets (← nth s.c.cfgs (← getNat j "obj")) (← getNat j "content")) s.c)
+  | "write_offsets" =>
+    let k ← nth s.c.cfgs (← getNat j "obj")
+    match (w.heap.cfgOf k).offs with
+    | some o => pure (fin w (.writeOffsets o (← getNat j "content")) s.c)
+    | none => throw "write_offsets on a config without offsets"
+  | "edit_dict" =>
+    let k ← nth s.c.dicts (← getNat j "obj")
+    let ents ← getList (asPair asStr asNat) j "entries"
+    let d ← ents.mapM (fun e => do pure (e.1, ← nth s.c.cals e.2))
+    pure (fin w (.setDict k d) s.c)
+  | "write_arr" =>
+    let cells ← match s.c.arrs[← getNat j "arr"]? with
+      | some c => pure c
+      | none => throw "caller array index out of range"
+    let i ← nth cells (← getNat j "col")
+    pure (fin w (.writeCell i (← getNat j "content")) s.c)
+  | "write_result" =>
+    -- `r = laser.get(..); r[...] = v`: the read, then an in-place write into every column of what it returned
+    let v ← getNat j "content"
+    let layer ← getNat j "layer"
+    let target ← fld j "target" >>= asOpt asStr
+    let cal ← getBool j "calibrate"
+    let fin2 := fun (w2 : World) (e : Option Err) =>
+      ({ s with w := w2, errs := s.errs ++ [e], cops := s.cops ++ [.callerEdit], sim := s.sim ++ [true],
+                unchanged := s.unchanged ++ [decide (view w2 = view w)] } : Sim)
+    match hGet w layer target cal with
+    | .error e => pure (fin2 w (some e))
+    | .ok (r, h) =>
+      let w1 : World := { w with heap := h }
+      pure (fin2 (r.cells.foldl (fun (acc : World) e => (hstep acc (.writeCell e.2 v)).state) w1) none)
+  | o => throw s!"bad op {o}"
+
+def jIdList (l : List (String × Nat)) : Json := jList (fun (e : String × Nat) => Json.arr #[jStr e.1, jNat e.2]) l
+
+def jRead (w : World) (r : Rd) : Json :=
+  match hGet w r.layer r.target r.calibrate with
+  | .error e => jObj [("raises", jErr e)]
+  | .ok (res, h) =>
+    jObj [("items", jReadOut (some res.items)), ("cells", jIdList res.cells),
+          -- reads never write to existing objects and leave the laser as it is
+          ("pure", jBool (decide (view { w with heap := h } = view w) &&
+                          decide (h.cells.take w.heap.cells.length = w.heap.cells) &&
+                          decide (h.cals = w.heap.cals) && decide (h.cfgs = w.heap.cfgs) &&
+                          decide (h.offs = w.heap.offs) && decide (h.dicts = w.heap.dicts)))]
+
+/-- the content-level run of the same history (`absOp` with the memory at the time of each call) -/
+def contentTrace (s0 : State) : List (Op) → List (State × Option Err)
+  | [] => []
+  | op :: ops => let r := stepE s0 op; (r.state, r.err) :: contentTrace r.state ops
+
+def runHeap (req : Json) : R Json := do
+  let srr ← getBool req "srr"
+  let layersJ ← getList pure req "layers"
+  let calObjs ← getList asNat req "cal_objs"
+  let givenJ ← fld req "given" >>= asOpt (asList (asPair asStr asNat))
+  let cfgJ ← fld req "cfg" >>= asOpt asNat
+  let offsTok ← getNat req "offs"
+  let rt ← getBool req "roundtrip"
+  let opsJ ← getList pure req "ops"
+  let rds ← getList parseRd req "reads"
+  -- the caller's objects
+  let h0 : Heap := { cells := [], cals := [], cfgs := [], offs := [], dicts := [] }
+  let mut h := h0
+  let mut data : List Arr := []
+  let mut arrs : List (List Nat) := []
+  for lj in layersJ do
+    let shape ← getList asNat lj "shape"
+    let fields ← getList (asPair asStr asNat) lj "fields"
+    let r := h.allocCells (fields.map (·.2))
+    h := r.2
+    data := data ++ [({ shape := shape, fields := List.zip (fields.map (·.1)) r.1 } : Arr)]
+    arrs := arrs ++ [r.1]
+  let mut cals : List Nat := []
+  for c in calObjs do
+    let r := h.allocCal c
+    h := r.2
+    cals := cals ++ [r.1]
+  let mut given : Option Nat := none
+  match givenJ with
+  | none => pure ()
+  | some g =>
+    let d ← g.mapM (fun e => do pure (e.1, ← nth cals e.2))
+    let r := h.allocDict d
+    h := r.2
+    given := some r.1
+  let mut config : Option Nat := none
+  match cfgJ with
+  | none => pure ()
+  | some c =>
+    if srr then
+      let o := h.allocOffs offsTok
+      let r := o.2.allocCfg ⟨c, some o.1⟩
+      h := r.2
+      config := some r.1
+    else
+      let r := h.allocCfg ⟨c, none⟩
+      h := r.2
+      config := some r.1
+  let w0 ← match hConstruct h srr data given config with
+    | some w' => pure w'
+    | none => throw "the constructor raises"
+  let mut caller : Caller := { arrs := arrs, cals := cals, dicts := given.toList, cfgs := config.toList }
+  let mut w := w0
+  if rt then
+    -- the saved laser lives on at the caller's side
+    caller := { caller with cals := caller.cals ++ (w0.heap.dict w0.laser.cal).map (·.2),
+                            dicts := caller.dicts ++ [w0.laser.cal], cfgs := caller.cfgs ++ [w0.laser.cfg] }
+    w ← match hRoundTrip w0 with
+      | some w' => pure w'
+      | none => throw "load raises"
+  let foreign : Foreign := { cals := caller.cals, dicts := caller.dicts, cfgs := caller.cfgs }
+  let start := w
+  let mut sim : Sim := { w := w, c := caller }
+  for oj in opsJ do
+    sim ← simStep sim oj
+  let wf := sim.w
+  let s := view wf
+  -- the constructor (and the loader) seen through `view` are the content-level constructors
+  let givenV := given.map (fun g => viewDict h (h.dict g))
+  let cfgV := (config.map (fun k => (h.cfgOf k).scal)).getD 0
+  let ls := data.map (viewLayer h)
+  let c0 : Option State :=
+    if srr then constructSRR ls givenV cfgV
+    else match ls with
+      | [l] => some (constructLaser l givenV cfgV)
+      | _ => none
+  let c1 := if rt then c0.bind roundTrip else c0
+  -- the dictionary of the property: the constructor arguments, then the calls (only while they succeed)
+  let a := (Spec.construct srr ls givenV cfgV).run sim.cops
+  pure (jObj [
+    ("model", obsModel s []),
+    ("spec", jOpt (obsSpec · rds) a),
+    ("errs", jList (jOpt jErr) sim.errs),
+    ("sim", jList jBool sim.sim),
+    ("unchanged", jList jBool sim.unchanged),
+    ("construct_ok", jBool (decide (c1 = some (view start)))),
+    ("inv_start", jBool (decide (Inv (view start)))),
+    ("given_ok", jBool (decide (GivenOK ls givenV))),
+    ("inv", jBool (decide (Inv s))),
+    ("valid", jBool (decide (Valid wf))),
+    ("sep_start", jBool (decide (Sep foreign start))),
+    ("sep", jBool (decide (Sep foreign wf))),
+    ("cal_ids", jIdList (wf.heap.dict wf.laser.cal)),
+    ("dict_id", jNat wf.laser.cal), ("cfg_id", jNat wf.laser.cfg),
+    ("cfg_offs", jOpt jNat (wf.heap.cfgOf wf.laser.cfg).offs),
+    ("cfg_offs_content", jOpt jNat (cfgOffsets wf)),
+    ("caller_cals", jList jNat sim.c.cals), ("caller_dicts", jList jNat sim.c.dicts),
+    ("caller_cfgs", jList jNat sim.c.cfgs),
+    ("caller_cfg_offs", jList (fun k => jOpt jNat (wf.heap.cfgOf k).offs) sim.c.cfgs),
+    ("caller_arrs", jList (jList jNat) sim.c.arrs),
+    ("layer_cells", jList (fun (a : Arr) => jIdList a.fields) wf.laser.data),
+    ("reads", jList (jRead wf) rds)])
+
 def handle (op : String) (req : Json) : R Json := do
   match op with
   | "c07.run" => runOne req
+  | "c07.heap" =>
+    let runs ← getList pure req "runs"
+    let outs ← runs.mapM runHeap
+    pure (jObj [("runs", Json.arr outs.toArray)])
   | "c07.batch" =>
     let runs ← getList pure req "runs"
     let outs ← runs.mapM runOne
